@@ -15,6 +15,7 @@ import absint
 import devices
 import facts as F
 import graph as G
+import mirutil as MU
 import sx
 from common import Reporter, loc_of
 
@@ -222,6 +223,49 @@ def run(tier):
                     ok = d.endswith("." + want_src[fname]) and "build_pass_2(" in d
                 rep.ob("C12.report|%s" % fname, ok, "BuildResult.%s is %s" % (fname, d.rsplit(")", 1)[-1] if ok else d) if ok else
                        "BuildResult.%s is taken from %s" % (fname, d))
+    # ---- what the RAM figure is: the extent of the data segment (end of the last data segment - start of RAM), handed on unchanged
+    import rules_C02
+
+    class Capture:
+        def __init__(self):
+            self.obs = []
+            self.analysed = {}
+            self.extra = {}
+
+        def ob(self, key, ok, what, **kw):
+            self.obs.append((key, ok, what))
+
+        def unprovable(self, key, what, **kw):
+            self.obs.append((key, False, what))
+
+        def count(self, *a):
+            pass
+
+        def floor(self, *a):
+            pass
+
+    cap = Capture()
+    rules_C02.clause_d(P, cap)
+    n_ext = 0
+    for k_, ok_, what_ in cap.obs:
+        if k_.startswith("C02.d|ram_filling|"):
+            n_ext += 1
+            rep.ob("C12.extent|ram|" + k_.split("|", 2)[2], ok_, "segments %s: the RAM figure that is compared and reported is the end of the last data segment minus the start of RAM" % k_.split("|", 2)[2] if ok_ else
+                   "segments %s: the RAM figure that is compared with the capacity and reported is not the extent of the data segment: %s" % (k_.split("|", 2)[2], what_))
+    rep.floor("segment-type pairs analysed for the RAM extent", n_ext, 9)
+    kb2 = "builder::pass2::build_pass_2"
+    if kb2 in P.body:
+        b2 = P.body[kb2]
+        ch2 = MU.Chaser(b2)
+        f2 = [f["name"] for f in P.lib.adts["builder::pass2::BuildResultPass2"]["variants"][0]["fields"]]
+        f1 = [f["name"] for f in P.lib.adts["builder::pass1::BuildResultPass1"]["variants"][0]["fields"]]
+        okh = False
+        for bl in b2["blocks"]:
+            for st in bl["stmts"]:
+                if st["k"] == "assign" and st["rv"]["k"] == "agg" and st["rv"]["kind"].get("path") == "builder::pass2::BuildResultPass2":
+                    r_ = ch2.root(st["rv"]["ops"][f2.index("ram_filling")], through_calls=False)
+                    okh = r_[0] is not None and 1 <= r_[0] <= b2["arg_count"] and "BuildResultPass1" in P.tys(kb2, b2["locals"][r_[0]]["ty"]) and MU.proj_fields(r_[1]) == [f1.index("ram_filling")]
+        rep.ob("C12.extent|ram|pass2-handover", okh, "pass 2 hands pass 1's RAM figure on unchanged" if okh else "pass 2 does not hand on pass 1's ram_filling unchanged")
     # ---- defaults
     dk = "device::Device::new"
     if dk in P.body:
